@@ -25,6 +25,12 @@ Interpretation choices (soundness first):
 * Configuration is respected, not questioned: with IncludeText/IncludeMetadata off or a MetadataFields list,
   only the fields the configuration lets through are compared; extra keys in the output are not an error.
 * Pinecone export skips chunks without an embedding by design: cases always supply one embedding per chunk.
+* A collection is an arbitrary sequence of chunks: what a chunk says about itself (chunk_index, total_chunks,
+  document title, id) is independent of where it stands.  Generated collections therefore include merged
+  documents (index 0 repeated / not in first place), reversed and filtered ones, and every exported scalar
+  must equal the chunk's own field through every exporter (Exporter, BatchExporter at every batch size,
+  StreamExporter with its running index, the vector-DB records).  Export.tla states this as the invariants
+  PositionIndependent / OwnIndex / OrderEquivariant; the variant IndexFrom = "position" is refuted by TLC.
 * Batch size <= 0 (no progress) belongs to C02, not here.  Invalid UTF-8 is not generated (JSON cannot carry it).
 * Search(keyword) / FilterByElementType are the documented case-insensitive predicates; search texts are
   built from words that do not overlap, so substring search equals containment of token sequences.
@@ -35,7 +41,9 @@ EVIDENCE = dict(
     rule="cases = (A) every single-chunk collection with text x title x section over the adversarial text set x 8 "
          "formats, (B) collections of <= MaxN chunk archetypes x every export configuration (text/metadata on-off, "
          "field lists, flatten, header, pretty, id column) x JSON/JSONL/CSV/TSV + 4 vector-DB record formats, "
-         "(C) batch sizes 1..n+1 and the stream exporter, (D) filter chains of <= 2 of 21 predicates - all enumerated "
+         "(C) batch sizes 1..n+1 and the stream exporter, (D) filter chains of <= 2 of 21 predicates, (E) filtered "
+         "collections exported - all enumerated; chunk metadata (index, total, title) belongs to the chunk "
+         "archetype, not to its position, so collections with the index-0 chunk anywhere / repeated occur in B, C, E - "
          "by TLC from ExportMC with the expected records computed by Export.tla; each case is run on the real "
          "exporters and parsed back with encoding/json / the validated RFC 4180 reader.  Non-trivial = a collection "
          "with >= 1 adversarial (non-word) token in id/text/title/section/path; distinct by case hash.  Random larger "
@@ -80,6 +88,8 @@ def run(ctx):
     exp = ctx.tlc("ExportMC", "Export_mc_quick.cfg" if q else "Export_mc_thorough.cfg", workers=8,
                   collect=True, timeout=3000, jvm="-Xmx12g" if not q else None)
     ctx.tlc("ExportMC", "Export_mc_impl.cfg", expect_violation=True)
+    # ... and so must the variant that writes a chunk's position in the exported slice for an index of 0
+    ctx.tlc("ExportMC", "Export_mc_impl_index.cfg", expect_violation=True, workers=4)
     cases = dedupe(exp["cases"])
     if not cases:
         raise vlib.MachineryError("ExportMC emitted no cases")
